@@ -155,7 +155,7 @@ Definition find_cp (c : cfg) (r : repo) (qs : list (N * N)) (target finalized he
 
 Record engine := mkE { e_master : N; e_fin : N; e_qs : list (N * N);
                        e_casts : option (list (N * N));     (* nil until the first ShouldVote *)
-                       e_jc : option (N * N) }.             (* Justified()'s one-entry cache: (storeID, value) *)
+                       e_jc : option (N * N * N) }.         (* Justified()'s one-entry cache: (storeID, finalized, value) *)
 
 Definition mark (ca : list (N * N)) (cp q : N) : list (N * N) :=
   (cp, q) :: filter (fun kv => negb (fst kv =? cp)) ca.
@@ -257,7 +257,9 @@ Definition should_vote (c : cfg) (r : repo) (e : engine) (parent : N) : engine *
       end
   end.
 
-Definition justified (c : cfg) (r : repo) (e : engine) (best : blk) : engine * res N :=
+(* Justified().  keyed = true is the code with the cache repair (the entry is valid only for the finalized checkpoint it was
+   searched from); keyed = false is the code before: the entry was keyed by the store point only. *)
+Definition justified_gen (keyed : bool) (c : cfg) (r : repo) (e : engine) (best : blk) : engine * res N :=
   let L := c_L c in
   let fin := e_fin e in
   if b_num best <? L - 1 then (e, Ok fin) else
@@ -266,23 +268,22 @@ Definition justified (c : cfg) (r : repo) (e : engine) (best : blk) : engine * r
   match block_at r (b_id best) (storepoint L concluded) with
   | None => (e, Err 4)
   | Some sb =>
-      match e_jc e with
-      | Some (search, value) => if search =? b_id sb then (e, Ok value) else
-          let q := get_q (e_qs e) (b_id sb) in
-          if q =? 0 then (e, Ok fin) else
-          match find_cp c r (e_qs e) q fin (b_id sb) with
-          | Err code => (e, Err code)
-          | Ok id => (mkE (e_master e) (e_fin e) (e_qs e) (e_casts e) (Some (b_id sb, id)), Ok id)
-          end
+      let hit := match e_jc e with
+                 | Some (search, f, value) => if (search =? b_id sb) && (negb keyed || (f =? fin)) then Some value else None
+                 | None => None
+                 end in
+      match hit with
+      | Some value => (e, Ok value)
       | None =>
           let q := get_q (e_qs e) (b_id sb) in
           if q =? 0 then (e, Ok fin) else
           match find_cp c r (e_qs e) q fin (b_id sb) with
           | Err code => (e, Err code)
-          | Ok id => (mkE (e_master e) (e_fin e) (e_qs e) (e_casts e) (Some (b_id sb, id)), Ok id)
+          | Ok id => (mkE (e_master e) (e_fin e) (e_qs e) (e_casts e) (Some (b_id sb, fin, id)), Ok id)
           end
       end
   end.
+Definition justified := justified_gen true.
 
 (* ---------------------------------------------------------------- node: import / propose / restart *)
 
